@@ -48,8 +48,8 @@ func checkPrime(c *engine.Chooser, sigPrefix, tag string, p, nth uint64, bits in
 func genModuliScenario(logNthRoot int) engine.Scenario {
 	name := fmt.Sprintf("gen/GenModuli/LogNthRoot=%d", logNthRoot)
 	return engine.Scenario{Name: name, Bound: -1, Fn: func(c *engine.Chooser) {
-		bq := 1 + c.Choose(61, "logQ") // 1..61
-		nq := 1 + c.Choose(3, "countQ")*2 // 1,3,5
+		bq := 1 + c.Choose(61, "logQ")     // 1..61
+		nq := 1 + c.Choose(3, "countQ")*2  // 1,3,5
 		samePSize := c.Choose(2, "P-size") // 0: LogP = 61 (downstream-only path), 1: LogP = LogQ size (shared generator)
 		nth := uint64(1) << logNthRoot
 		logQ := make([]int, nq)
